@@ -82,6 +82,24 @@ CHECKS.update({
          "explicit-state BFS over (file x environment x handle) states with the real object re-executed per transition"),
 })
 
+
+# sentences appended to the level text of a check when later rounds widened its space (kept separate so that the
+# original description stays readable)
+ADDENDA = {
+ "C01": " Rounds 8-9 added: negative per-unit rates, and postings that carry a cost or lot price AND a (true) balance assertion.",
+ "C02": " Round 9 added start states in which one account holds three and four commodities.",
+ "C03": " Round 9 added start states in which one account holds three and four commodities (a bare `= 0` there must be rejected).",
+ "C04": " Rounds 8-9 added: a command-line pass over every one-bound spelling (--start, --begin, --end), and for ledgers written in one commodity the identity conversion (-X that commodity, up-to-date and historical) over every range.",
+ "C06": " Rounds 8-9 added: whole-file pumps (10^5 entries) through the real binary, and invisible marks (BOM, ZWSP) in front of 8 kinds of refused entry x 1- to 4-byte characters before every line break x LF/CRLF x final newline.",
+ "C07": " Round 9 added family 4b: every well-formed literal of length <= 5 (and six longer grouped ones) in each of the 10 syntactic positions is echoed by `format` with the same value, decimal places and grouping style.",
+ "C08": " Round 9 added sums and differences of three commodities (alone, negated, scaled, as divisor of a bare number) in every context.",
+ "C09": " Rounds 8-9 added: the same oracle through `okane primitive eval --date` under three settings of --now, facts stated next to a dated lot, and zero quantities (no chain, no conversion).",
+ "C10": " Round 9 added a sale out of a dated lot (lot price, lot date, note and cost on one posting).",
+ "C13": " Rounds 8-9 added to the corpus: a zero-valued commodity next to a non-zero one in a converted amount, a two-commodity same-side residual, commodities differing only in letter case with a third spelling asked for by -X.",
+ "C19": " Round 9 added operator chains whose first operands carry no commodity (`(1200 + 300 + N C)`, `(3 * 2 * N C)`, ...): the first number that carries the commodity ends in column 52.",
+ "C20": " Round 9 added family S: every string of length <= 4 over {a, CR, LF} as golden content x UPDATE_GOLDEN {unset, empty, 1} x every such string as `got` (44 k asserts), and the directory listing is watched in the large-golden family.",
+}
+
 PENDING_REASON = "check not yet implemented in this revision of /verif (planned, see DESIGN.md §5); not claimed until it exists"
 
 def load_note_entries():
@@ -102,6 +120,7 @@ def main():
         pid = p['id']
         if pid in CHECKS:
             cat, text, note, ref, tech = CHECKS[pid]
+            text = text + ADDENDA.get(pid, "")
             checks.append({
                 "property_id": pid,
                 "quick_cmd": f"./okv check {pid} quick",
